@@ -267,7 +267,8 @@ class StringLiteral(BaseType):
             limit = options.get(self.TypeStyle.max_literals)
             if limit is None or len(self.literals) < limit:
                 parts = ', '.join(
-                    json.dumps(s)
+                    # JSON escapes of non-BMP characters (surrogate pairs) mean other strings in Python
+                    json.dumps(s, ensure_ascii=False)
                     for s in sorted(self.literals)
                 )
                 return [(Literal.__module__, 'Literal')], f"Literal[{parts}]"
